@@ -67,17 +67,19 @@ Definition interpolate_curve (pts : mat) (p : nat) (cds : list T) : res (mat * l
     let kv := compute_knot_vector p (length pts) uk in
     res_map (fun P => (P, kv)) (interp_1d p kv uk pts)).
 
-(* points are stored v fastest: index v + size_v * u *)
+(* points are stored v fastest: index v + size_v * u.  Two passes of curve interpolation (A9.4):
+   ctrlpts_r[u + su * v] from the data rows, then the control net from the columns of ctrlpts_r *)
+Definition interp_surface_core (pu pv : nat) (kvu kvv uk vl : list T) (su sv : nat) (pts : mat) : res mat :=
+  res_bind (res_all (map (fun v => interp_1d pu kvu uk (map (fun u => nth (Nat.add v (Nat.mul sv u)) pts []) (seq 0 su))) (seq 0 sv)))
+    (fun Rs => let R := concat Rs in
+      res_bind (res_all (map (fun u => interp_1d pv kvv vl (map (fun v => nth (Nat.add u (Nat.mul su v)) R []) (seq 0 sv))) (seq 0 su)))
+        (fun Cs => Ok (concat Cs))).
 Definition interpolate_surface (pts : mat) (su sv pu pv : nat) (cdsU cdsV : mat) : res (mat * list T * list T) :=
   res_bind (compute_params_surface su sv cdsU cdsV) (fun uv =>
     let uk := fst uv in let vl := snd uv in
     let kvu := compute_knot_vector pu su uk in
     let kvv := compute_knot_vector pv sv vl in
-    (* ctrlpts_r[u + su * v] *)
-    res_bind (res_all (map (fun v => interp_1d pu kvu uk (map (fun u => nth (Nat.add v (Nat.mul sv u)) pts []) (seq 0 su))) (seq 0 sv)))
-      (fun Rs => let R := concat Rs in
-        res_bind (res_all (map (fun u => interp_1d pv kvv vl (map (fun v => nth (Nat.add u (Nat.mul su v)) R []) (seq 0 sv))) (seq 0 su)))
-          (fun Cs => Ok (concat Cs, kvu, kvv)))).
+    res_map (fun P => (P, kvu, kvv)) (interp_surface_core pu pv kvu kvv uk vl su sv pts)).
 
 (* least squares with fixed end points (Eqs 9.63 - 9.67): c control points for the data pts at params *)
 Definition approx_N (p c : nat) (kv params : list T) (r : nat) : mat :=
